@@ -42,11 +42,11 @@ Definition recast {A B} (o : outcome A) : outcome B :=
   end.
 
 (* ------------------------------------------------------------------ the world *)
+(* what evaluation can do to the outside: call a library function, register a
+   closable.  Closing and serialising are not among them (RunApi.v). *)
 Inductive event :=
 | EvCall (f : name) (args : list value)
-| EvBind (id : Z)                  (* a closable value was registered *)
-| EvClose (id : Z)
-| EvMarshal.
+| EvBind (id : Z).                 (* a closable value was registered *)
 
 Record world := {
   w_trace : list event;            (* newest first *)
@@ -54,7 +54,9 @@ Record world := {
   w_cancel_at : option N;          (* cancel inside the k-th instrumented call (0-based) *)
   w_ncalls : N;
   w_closers : list Z;              (* registration order, newest first *)
-  w_params : list (name * value)
+  w_params : list (name * value);
+  w_fail_at : option (N * N)       (* the k-th instrumented call fails instead of running:
+                                      kind 0 error, 1 panic(string), 2 panic(error), 3 panic(other) *)
 }.
 
 Definition M (A : Type) := world -> outcome A * world.
@@ -75,21 +77,21 @@ Definition check_ctx : M unit :=
 Definition log (e : event) : M unit :=
   fun w => (Ok tt, {| w_trace := e :: w_trace w; w_cancelled := w_cancelled w;
                       w_cancel_at := w_cancel_at w; w_ncalls := w_ncalls w;
-                      w_closers := w_closers w; w_params := w_params w |}).
+                      w_closers := w_closers w; w_params := w_params w; w_fail_at := w_fail_at w |}).
 Definition set_cancelled : M unit :=
   fun w => (Ok tt, {| w_trace := w_trace w; w_cancelled := true;
                       w_cancel_at := w_cancel_at w; w_ncalls := w_ncalls w;
-                      w_closers := w_closers w; w_params := w_params w |}).
+                      w_closers := w_closers w; w_params := w_params w; w_fail_at := w_fail_at w |}).
 Definition count_call : M unit :=
   fun w =>
     let hit := match w_cancel_at w with Some k => (k =? w_ncalls w)%N | None => false end in
     (Ok tt, {| w_trace := w_trace w; w_cancelled := w_cancelled w || hit;
                w_cancel_at := w_cancel_at w; w_ncalls := (w_ncalls w + 1)%N;
-               w_closers := w_closers w; w_params := w_params w |}).
+               w_closers := w_closers w; w_params := w_params w; w_fail_at := w_fail_at w |}).
 Definition add_closer (id : Z) : M unit :=
   fun w => (Ok tt, {| w_trace := EvBind id :: w_trace w; w_cancelled := w_cancelled w;
                       w_cancel_at := w_cancel_at w; w_ncalls := w_ncalls w;
-                      w_closers := id :: w_closers w; w_params := w_params w |}).
+                      w_closers := id :: w_closers w; w_params := w_params w; w_fail_at := w_fail_at w |}).
 
 (* ------------------------------------------------------------------ scopes *)
 Definition frame := list (name * value).
@@ -499,9 +501,20 @@ Definition fn_known (f : name) : bool :=
   existsb (bytes_eqb f)
     [bs "T"; bs "ARR"; bs "FAIL"; bs "PANIC_S"; bs "PANIC_E"; bs "PANIC_O"; bs "CANCEL"; bs "CLOSER"].
 
+Definition injected_failure : M unit :=
+  fun w => match w_fail_at w with
+           | Some (k, kind) =>
+               if (k + 1 =? w_ncalls w)%N then
+                 ((if (kind =? 0)%N then Err EFunc else if (kind =? 1)%N then PanicStr
+                   else if (kind =? 2)%N then PanicErr else PanicOther), w)
+               else (Ok tt, w)
+           | None => (Ok tt, w)
+           end.
+
 Definition call_fn (f : name) (args : list value) : M value :=
   do _ <- log (EvCall f args);
   do _ <- count_call;
+  do _ <- injected_failure;
   if bytes_eqb f (bs "T") then ret (last args VNone)
   else if bytes_eqb f (bs "ARR") then ret (VArr args)
   else if bytes_eqb f (bs "FAIL") then fail (Err EFunc)
@@ -1109,4 +1122,8 @@ Notation run_body := (run_body_g true).
 
 Definition init_world (params : list (name * value)) (precancel : bool) (cancel_at : option N) : world :=
   {| w_trace := []; w_cancelled := precancel; w_cancel_at := cancel_at; w_ncalls := 0;
-     w_closers := []; w_params := params |}.
+     w_closers := []; w_params := params; w_fail_at := None |}.
+Definition with_fail_at (w : world) (k kind : N) : world :=
+  {| w_trace := w_trace w; w_cancelled := w_cancelled w; w_cancel_at := w_cancel_at w;
+     w_ncalls := w_ncalls w; w_closers := w_closers w; w_params := w_params w;
+     w_fail_at := Some (k, kind) |}.
